@@ -255,3 +255,40 @@ def extra_objvalue(B, case, ob, points, targets):
         xs = nlp.solve_point(ob, t)
         out.append(float(ob.extra_f(xs, ob.pval)))
     return {"objvalue": out}
+
+
+def extras_time(B, case):
+    ocp = B.ocp
+    import casadi as ca
+    tc, tv = ocp.sample(ocp.t, grid="control")
+    ti, _ = ocp.sample(ocp.t, grid="integrator")
+    _, dt = ocp.sample(ocp.DT, grid="control")
+    _, dtc = ocp.sample(ocp.DT_control, grid="control")
+    return [ca.vec(tc), ca.vec(tv), ca.vec(ti), ca.vec(dt), ca.vec(dtc)]
+
+
+def extra_time(B, case, ob, points, targets):
+    from . import nlp
+    out = []
+    for t in targets:
+        xs = nlp.solve_point(ob, t)
+        vals = ob.extra_f(xs, ob.pval)
+        out.append([[float(v) for v in np.array(a).reshape(-1)] for a in vals])
+    return {"time": out}
+
+
+def compare_time(mvals, rtime):
+    """model (cg, ig, DT, DTc) vs rockit (control time vector, sampled t, integrator times, DT, DTc)"""
+    names = ["control time vector", "sample(ocp.t) on the control grid", "integrator time vector",
+             "sample(ocp.DT)", "sample(ocp.DT_control)"]
+    for p, (mv, rt) in enumerate(zip(mvals, rtime)):
+        cg, ig, dts, dtcs = mv[4]
+        model = [cg, cg, ig, dts, dtcs]
+        for nm, a, b in zip(names, model, rt):
+            if len(a) != len(b):
+                return [{"what": nm + ": length differs", "model": len(a), "rockit": len(b), "point": p}]
+            if any((not math.isfinite(v)) or abs(v) > BIG for v in list(a) + list(b)):
+                return []
+            if not all(close(y, x) for x, y in zip(a, b)):
+                return [{"what": nm + " differs from the declared partition", "model": a, "rockit": b, "point": p}]
+    return []
